@@ -136,6 +136,19 @@ template <class RCU> struct Access<cds::urcu::gc<RCU>> {   // RCU: exempt_ptr ou
     template <class S> static R extract_max(S& s) { R r; auto xp = s.extract_max(); if (xp) { r.ok = true; r.inst = inst_of(*xp); r.key = key_of(*xp); } xp.release(); return r; }
 };
 
+// ---- the *_with( key, less ) overloads (C20: "every sequence of API calls"): used instead of the plain ones in a third of the runs,
+// where the container offers them (SFINAE) and orders its elements by 'less' (not the lock-based hash sets, whose predicate is an equality)
+extern bool g_with_pred;   // per run (knob with_pred); defined in harness/core.cpp
+template <class S> auto contains_w(S& s, long k, int) -> decltype((bool)s.contains(k, Less())) { return s.contains(k, Less()); }
+template <class S> bool contains_w(S& s, long k, long) { return s.contains(k); }
+template <class S, class F> auto find_w(S& s, long& k, F f, int) -> decltype((bool)s.find_with(k, Less(), f)) { return s.find_with(k, Less(), f); }
+template <class S, class F> bool find_w(S& s, long& k, F f, long) { return s.find(k, f); }
+template <class S> auto erase_w(S& s, long k, int) -> decltype((bool)s.erase_with(k, Less())) { return s.erase_with(k, Less()); }
+template <class S> bool erase_w(S& s, long k, long) { return s.erase(k); }
+template <class S, class F> auto erase_wf(S& s, long k, F f, int) -> decltype((bool)s.erase_with(k, Less(), f)) { return s.erase_with(k, Less(), f); }
+template <class S, class F> bool erase_wf(S& s, long k, F f, long) { return s.erase(k, f); }
+template <class GC> inline bool use_with() { return g_with_pred && !std::is_same<GC, cds::gc::nogc>::value; }
+
 // ---- generic adapter over the "set" API (value_type = Item)
 template <unsigned Caps, bool UpdateReplaces = false, bool Ordered = true, bool HasIter = true, bool HasSize = true, bool RcuExtractLocked = false>
 struct Cfg { static const unsigned caps = Caps; static const bool update_replaces = UpdateReplaces, ordered = Ordered, has_iter = HasIter, has_size = HasSize, rcu_extract_locked = RcuExtractLocked; };
@@ -160,14 +173,14 @@ struct SetA {
     typedef std::true_type yes; typedef std::false_type no;
     template <int K> struct has : std::integral_constant<bool, ((CFG::caps >> K) & 1) != 0> {};
     R erase(long key, int form) { return erase_(key, form, has<ERASE>()); }
-    R erase_(long key, int form, yes) { R r; if (form == 1) { r.ok = s->erase(key, EraseF{&r}); if ((r.ok && r.calls != 1) || (!r.ok && r.calls)) r.calls = -100; } else r.ok = s->erase(key); return r; }
+    R erase_(long key, int form, yes) { R r; bool w = use_with<GC>(); if (form == 1) { r.ok = w ? erase_wf(*s, key, EraseF{&r}, 0) : s->erase(key, EraseF{&r}); if ((r.ok && r.calls != 1) || (!r.ok && r.calls)) r.calls = -100; } else r.ok = w ? erase_w(*s, key, 0) : s->erase(key); return r; }
     R erase_(long, int, no) { return R(); }
     R extract_(long key, yes) { return Access<GC>::extract(*s, key, CFG::rcu_extract_locked); }
     R extract_(long, no) { return R(); }
     R get_(long key, yes) { return Access<GC>::get(*s, key); }
     R get_(long, no) { return R(); }
-    R contains(long key) { R r; r.ok = s->contains(key); return r; }
-    R find(long key) { R r; long k = key; r.ok = s->find(k, FindF{&r}); if ((r.ok && r.calls != 1) || (!r.ok && r.calls)) r.calls = -100; return r; }
+    R contains(long key) { R r; r.ok = use_with<GC>() ? contains_w(*s, key, 0) : s->contains(key); return r; }
+    R find(long key) { R r; long k = key; r.ok = use_with<GC>() ? find_w(*s, k, FindF{&r}, 0) : s->find(k, FindF{&r}); if ((r.ok && r.calls != 1) || (!r.ok && r.calls)) r.calls = -100; return r; }
     R update(long key, long inst, bool allow) { R r; Item it(key, inst); std::pair<bool, bool> p = s->update(it, UpdF{&r}, allow); r.ok = p.first; r.inserted = p.second; if ((r.ok && r.calls > 1) || (!r.ok && r.calls)) r.calls = -100; return r; }
     R extract(long key) { return extract_(key, has<EXTRACT>()); }
     R get(long key) { return get_(key, has<GET>()); }
@@ -198,14 +211,14 @@ struct MapA {
     typedef std::true_type yes; typedef std::false_type no;
     template <int K> struct has : std::integral_constant<bool, ((CFG::caps >> K) & 1) != 0> {};
     R erase(long key, int form) { return erase_(key, form, has<ERASE>()); }
-    R erase_(long key, int form, yes) { R r; if (form == 1) { r.ok = s->erase(key, EraseF{&r}); if ((r.ok && r.calls != 1) || (!r.ok && r.calls)) r.calls = -100; } else r.ok = s->erase(key); return r; }
+    R erase_(long key, int form, yes) { R r; bool w = use_with<GC>(); if (form == 1) { r.ok = w ? erase_wf(*s, key, EraseF{&r}, 0) : s->erase(key, EraseF{&r}); if ((r.ok && r.calls != 1) || (!r.ok && r.calls)) r.calls = -100; } else r.ok = w ? erase_w(*s, key, 0) : s->erase(key); return r; }
     R erase_(long, int, no) { return R(); }
     R extract_(long key, yes) { return Access<GC>::extract(*s, key, CFG::rcu_extract_locked); }
     R extract_(long, no) { return R(); }
     R get_(long key, yes) { return Access<GC>::get(*s, key); }
     R get_(long, no) { return R(); }
-    R contains(long key) { R r; r.ok = s->contains(key); return r; }
-    R find(long key) { R r; r.ok = s->find(key, FindF{&r}); if ((r.ok && r.calls != 1) || (!r.ok && r.calls)) r.calls = -100; return r; }
+    R contains(long key) { R r; r.ok = use_with<GC>() ? contains_w(*s, key, 0) : s->contains(key); return r; }
+    R find(long key) { R r; long k = key; r.ok = use_with<GC>() ? find_w(*s, k, FindF{&r}, 0) : s->find(key, FindF{&r}); if ((r.ok && r.calls != 1) || (!r.ok && r.calls)) r.calls = -100; return r; }
     // maps create the mapped value inside the functor: a new element gets 'inst', an existing one is only observed
     struct MapUpd {
         R* r; long inst;
@@ -307,6 +320,7 @@ inline void gen_program(Rng& r, Program& p, int tier, const GenCfg& g0) {
     p.set("keys", hot + cold); p.set("prefill_mask", c17 ? r.below(4) : r.below(1 << (hot + cold)));
     // aged structure: some prefilled keys are erased again before the clients start (empty IterableList nodes, Bronson routing nodes, marked / recycled nodes, Feldman slots emptied after a split)
     p.set("pre_erase_mask", (!c17 && (g.caps & CAP(ERASE)) && r.chance(500)) ? (p.knob("prefill_mask") & r.below(1 << (hot + cold))) : 0);
+    p.set("with_pred", r.chance(330));
     p.set("hash_mode", g.hash_modes ? (c17 ? r.pick({1, 1, 2, 2, 0, 3}) % g.hash_modes : r.below(g.hash_modes)) : 0);
     smr_knobs(r, p, nth, g.min_hazards);
     p.threads.resize(nth);
@@ -364,7 +378,7 @@ template <class A> void record(Ctx& ctx, A& a, int thread, Op op) {
 
 template <class A> void run(Ctx& ctx) {
     const Program& P = *ctx.prog;
-    g_hash_mode = (int)P.knob("hash_mode"); g_exclusive_functors = exclusive_of<A>(0); memset(g_functor_occupancy, 0, sizeof g_functor_occupancy);
+    g_hash_mode = (int)P.knob("hash_mode"); g_with_pred = P.knob("with_pred") != 0; g_exclusive_functors = exclusive_of<A>(0); memset(g_functor_occupancy, 0, sizeof g_functor_occupancy);
     {
         typename A::Smr smr(P);
         cds::threading::Manager::attachThread();
